@@ -18,6 +18,10 @@
 #    an infrastructure error (exit 2), not as a verdict.
 #  * findings of the shared SleepCmd pipeline that concern "acted on a valid command twice / genuine command
 #    suppressed / cache maintenance" belong to C29 and are not reported here.
+#  * configuration: the statement speaks of "an agent" with a signing key: the whole-agent replay runs with sleep mode
+#    enabled AND disabled (a relay); with sleep mode disabled the only observable is forwarding (frames written to the
+#    other peers) and the cache size.  The pending wake command a Flooder keeps for peers that connect later is part
+#    of "what the agent forwards": storing a command there that failed verification is reported here.
 import _sleepcmd as S
 
 
